@@ -269,7 +269,11 @@ class Gaussian(Prior):
         return self.sd**2
 
     def lnprob(self, p):
-        return self._lnprob_normalization - (p-self.mu)**2/(2*self.variance)
+        # (standardize first: squaring p - mu or sd on their own overflows or
+        # underflows where the ratio does not; z*z, unlike z**2, gives inf
+        # for python floats instead of raising OverflowError)
+        z = (p - self.mu) / self.sd
+        return self._lnprob_normalization - z*z/2
         # Turns out scipy.stats is noticably slower than doing it ourselves
         # return stats.norm.logpdf(p, self.mu, self.sd)
 
